@@ -54,8 +54,27 @@ fn c17_q_alloc_open_with_index() {
     let mut shp: [u8; 100] = kani::any();
     put_i32_be(&mut shp, 0, 9994);
     put_i32_le(&mut shp, 32, 1);
+    c17_native_reset();
     let rd = ShapeReader::with_shx(MemSource::new(&shp), MemSource::new(&shx));
+    c17_native_check();
     kani::cover!(rd.is_ok());
     kani::cover!(rd.is_err());
     std::mem::forget(rd);
+}
+
+// H: tier=quick; unwind=20; sym=record_size: i32 (all values), 36 content bytes; call=Point::read_from with Vec::with_capacity AND vec![x; n] replaced by bounded models; asserts=a single-point decoder requests no memory out of proportion to its input (e.g. a scratch buffer sized by the declared record size)
+#[kani::proof]
+#[kani::unwind(20)]
+#[kani::stub(std::vec::Vec::with_capacity, crate::env::with_capacity_model_bounded)]
+#[kani::stub(std::vec::from_elem, crate::env::from_elem_model_bounded)]
+fn c17_q_alloc_point() {
+    decode_any::<Point, 36>(T_POINT, true);
+}
+// H: tier=quick; unwind=20; sym=record_size: i32, 36 content bytes; call=PointZ::read_from with both allocation models; asserts=as above
+#[kani::proof]
+#[kani::unwind(20)]
+#[kani::stub(std::vec::Vec::with_capacity, crate::env::with_capacity_model_bounded)]
+#[kani::stub(std::vec::from_elem, crate::env::from_elem_model_bounded)]
+fn c17_q_alloc_pointz() {
+    decode_any::<PointZ, 36>(T_POINTZ, true);
 }
